@@ -22,10 +22,10 @@ go build ./... >> $log 2>&1 && go test -count=1 ./... >> $log 2>&1; suite=$?
 for try in 1 2; do if [ $suite -ne 0 ]; then go test -count=1 ./... >> $log 2>&1; suite=$?; fi; done
 cp $dst/demo_test.go.txt $wt/$pkg/zz_seed_demo_test.go
 echo "== demo with change" >> $log
-go test -count=1 -run 'SeedDemo' ./$pkg >> $log 2>&1; demo_with=$?
+go test -count=1 -run 'Seed' ./$pkg >> $log 2>&1; demo_with=$?
 git apply -R $dst/patch.diff
 echo "== demo without change" >> $log
-go test -count=1 -run 'SeedDemo' ./$pkg >> $log 2>&1; demo_without=$?
+go test -count=1 -run 'Seed' ./$pkg >> $log 2>&1; demo_without=$?
 rm -f $wt/$pkg/zz_seed_demo_test.go
 echo "suite_with_change_exit=$suite demo_with_change_exit=$demo_with demo_without_change_exit=$demo_without" | tee -a $log
 confirmed=false
@@ -33,7 +33,19 @@ if [ $suite -eq 0 ] && [ $demo_with -ne 0 ] && [ $demo_without -eq 0 ]; then con
 # run the checks against /repo with the change applied
 cd /verif
 results=""
-if $confirmed; then
+if $confirmed && [ -n "${SEED_VIA_WORKTREE:-}" ]; then
+  # /repo is busy (a long check batch is running against it): run the checks
+  # against the scratch worktree with the change applied instead
+  git -C $wt apply $dst/patch.diff || { echo "patch does not re-apply to worktree" | tee -a $log; exit 2; }
+  mkdir -p /tmp/seed_evidence
+  for c in $checks; do
+    VERIF_REPO=$wt VERIF_EVIDENCE_DIR=/tmp/seed_evidence ./bin/verif check $c --tier ${SEED_TIER:-quick} > $dst/check_$c.log 2>&1; ec=$?
+    v=$(grep -c '^VIOLATION' $dst/check_$c.log)
+    printf "%s\t%s\t%s\n" "$c" "$ec" "$v" >> $dst/results.tsv
+    echo "check $c exit=$ec violations=$v (VERIF_REPO=$wt)" | tee -a $log
+  done
+  git -C $wt apply -R $dst/patch.diff
+elif $confirmed; then
   git -C /repo apply $dst/patch.diff || { echo "patch does not apply to /repo" | tee -a $log; exit 2; }
   for c in $checks; do
     ./bin/verif check $c --tier ${SEED_TIER:-quick} > $dst/check_$c.log 2>&1; ec=$?
